@@ -105,6 +105,14 @@ func simTimerRand() uint32 {
 	return uint32(simNext(&simsched.sel) >> 32)
 }
 
+//go:linkname simRand
+func simRand() (uint64, bool) {
+	if !simsched.enabled || getg().bubble == nil {
+		return 0, false
+	}
+	return simNext(&simsched.sel), true
+}
+
 //go:linkname simEnable
 func simEnable(seed uint64, yieldThr uint32) {
 	if seed == 0 {
@@ -238,5 +246,31 @@ func simGetTrace(i uint32) (a, b, c uint64, ok bool) {
 	return t[0], t[1], t[2], true
 }
 ''')
+
+# --- sync/atomic typed methods + function wrappers
+import re as _re
+_p = os.path.join(GR, "src", "sync/atomic/type.go")
+_t = open(_p).read()
+# one-line methods: func (x *T) M(...) ... { return F(...) }
+def _inj(m):
+    return m.group(1) + "{ runtime_simYield(); " + m.group(2)
+_t2, n1 = _re.subn(r'(?m)^(func \(x \*\w+(?:\[T\])?\) \w+\([^)]*\)[^{\n]*)\{ (.*\})$', _inj, _t)
+# multi-line methods
+_t2, n2 = _re.subn(r'(?m)^(func \(x \*\w+(?:\[T\])?\) \w+\([^)]*\)[^{\n]*\{)\n', lambda m: m.group(1) + "\n\truntime_simYield()\n", _t2)
+print("atomic methods patched", n1, n2)
+_t2 += "\n//go:linkname runtime_simYield runtime.simYield\nfunc runtime_simYield()\n"
+_o = os.path.join(OUT, "sync__atomic__type.go"); open(_o, "w").write(_t2); repl[_p] = _o
+_w = ["package atomic\n"]
+for ty, go in [("Int32","int32"),("Int64","int64"),("Uint32","uint32"),("Uint64","uint64"),("Uintptr","uintptr")]:
+    _w.append(f"func SimAdd{ty}(addr *{go}, delta {go}) {go} {{ runtime_simYield(); return Add{ty}(addr, delta) }}\n")
+    _w.append(f"func SimLoad{ty}(addr *{go}) {go} {{ runtime_simYield(); return Load{ty}(addr) }}\n")
+    _w.append(f"func SimStore{ty}(addr *{go}, val {go}) {{ runtime_simYield(); Store{ty}(addr, val) }}\n")
+    _w.append(f"func SimSwap{ty}(addr *{go}, new {go}) {go} {{ runtime_simYield(); return Swap{ty}(addr, new) }}\n")
+    _w.append(f"func SimCompareAndSwap{ty}(addr *{go}, old, new {go}) bool {{ runtime_simYield(); return CompareAndSwap{ty}(addr, old, new) }}\n")
+add("sync/atomic/simwrap.go", "".join(_w))
+patch("math/rand/v2/rand.go", [
+ ("func (runtimeSource) Uint64() uint64 {\n	return runtime_rand()", "func (runtimeSource) Uint64() uint64 {\n	if v, ok := runtime_simRand(); ok {\n		return v\n	}\n	return runtime_rand()"),
+], append="\n//go:linkname runtime_simRand runtime.simRand\nfunc runtime_simRand() (uint64, bool)\n")
+
 json.dump({"Replace": repl}, open("/tmp/rtsim/overlay.json", "w"), indent=1)
 print("ok", len(repl))
